@@ -62,4 +62,7 @@ def run(ctx):
                           "the en-passant loop is not bounded by a pawn-attack set (at most two capturers)", loc(body),
                           sample={"ep_loop": sym.show(l)[:200]})
     ctx.floor("batch sites", total_sites, 16)
+    # look-up functions equal geometry (owned by C05): the atoms of the specifications above stand on it
+    from . import c05
+    c05.run_lookups(ctx)
     ctx.assumptions += ["<=16 pieces per side (C06) and pawn-attack sets of <=2 squares (C05) give the numeric bound 16 + 2 = 18"]
